@@ -304,6 +304,8 @@
 #![cfg_attr(feature = "cargo-clippy", allow(clippy::inline_always))]
 
 mod alloc;
+#[cfg(feature = "multiqueue2_verif")]
+pub mod verif_hooks;
 mod atomicsignal;
 mod broadcast;
 mod consume;
